@@ -106,6 +106,15 @@ def pha_ctxs():
     return _ctx_cache["pha"]
 
 
+class TransportSpin(BaseException):
+    """Raised by the harness transports when the code under test keeps reading a connection which has already reported its
+    end (SPIN_LIMIT consecutive zero-byte answers): the caller is polling in a loop which would never end.  A BaseException,
+    so that no handler of the code under test swallows or converts it; every check sees it as its own outcome."""
+
+
+SPIN_LIMIT = 64
+
+
 def classify(exc) -> int:
     """Outcome class of an exception raised by an SSL-object method (the distinctions the transports make)."""
     if isinstance(exc, ssl.SSLWantReadError):
@@ -448,6 +457,7 @@ class MemTransport(AsyncStreamTransport):
         self.recving = 0
         self.recv_overlap = False
         self.data_event = asyncio.Event()
+        self.zero_answers = 0                 # consecutive zero-byte answers of recv_into (see TransportSpin)
         self.peer_silent_eof = True           # nothing more to come from the peer => EOF (never block forever)
         self.writable = asyncio.Event()       # cleared = back-pressure: send_all() parks until it is set again
         self.writable.set()
@@ -553,6 +563,7 @@ class MemTransport(AsyncStreamTransport):
                 a = min(a, memoryview(buffer).nbytes)
                 memoryview(buffer)[:a] = bytes(a)
                 self.rec.log("rcvd", tid, a)
+                self._count_zero(a)
                 return a
             if self.closed:
                 self.rec.log("rcvd", tid, -1)
@@ -569,6 +580,7 @@ class MemTransport(AsyncStreamTransport):
                     for _ in range(self.deliver_early):
                         await asyncio.sleep(0)
                     self.rec.log("rcvd", tid, n)
+                    self._count_zero(n)
                     return n
                 if limit is not None and limit <= 0:
                     break
@@ -586,9 +598,16 @@ class MemTransport(AsyncStreamTransport):
                     self.rec.log("cancel", tid)
                     raise
             self.rec.log("rcvd", tid, 0)
+            self._count_zero(0)
             return 0
         finally:
             self.recving -= 1
+
+    def _count_zero(self, n):
+        self.zero_answers = self.zero_answers + 1 if n == 0 else 0
+        if self.zero_answers > SPIN_LIMIT:
+            self.zero_answers = 0
+            raise TransportSpin("the wrapped transport's end-of-stream was read %d times in a row" % SPIN_LIMIT)
 
     async def recv(self, bufsize):
         buf = bytearray(bufsize)
@@ -648,6 +667,10 @@ class RecTransportProxy(AsyncStreamTransport):
             self.rec.log("rcvd", tid, -1)
             raise
         self.rec.log("rcvd", tid, n)
+        self.zero_answers = getattr(self, "zero_answers", 0) + 1 if n == 0 else 0
+        if self.zero_answers > SPIN_LIMIT:
+            self.zero_answers = 0
+            raise TransportSpin("the wrapped transport's end-of-stream was read %d times in a row" % SPIN_LIMIT)
         return n
 
     async def recv(self, bufsize):
